@@ -40,8 +40,160 @@ const (
 	c14PkgRemote = "registry/remote"
 	c14TMerge    = "~/internal/syncutil.Merge"
 	c14TPool     = "~/internal/syncutil.Pool"
-	c14TPoolItem = "~/internal/syncutil.poolItem"
 )
+
+// c14N: the unexported state of Merge / Pool, identified by type and role (not by name).
+var c14N struct {
+	lock, committed, items, pending, status, pendingStatus string // Merge
+	main, err                                              string // the status message
+	poolLock, poolItems, poolItem, refCount                string // Pool
+}
+
+// c14ResolveNames fills c14N; returns what could not be identified.
+func c14ResolveNames(c *Ctx) string {
+	c14N = struct {
+		lock, committed, items, pending, status, pendingStatus string
+		main, err                                              string
+		poolLock, poolItems, poolItem, refCount                string
+	}{}
+	mt := c.P.Named(c14PkgSync, "Merge")
+	if mt == nil {
+		return "~/internal/syncutil.Merge"
+	}
+	st, ok := mt.Underlying().(*types.Struct)
+	if !ok {
+		return "~/internal/syncutil.Merge is not a struct"
+	}
+	isMutex := func(t types.Type) bool {
+		n, ok := t.(*types.Named)
+		return ok && n.Obj().Pkg() != nil && n.Obj().Pkg().Path() == "sync" && (n.Obj().Name() == "Mutex" || n.Obj().Name() == "RWMutex")
+	}
+	var slices, chans []string
+	var msgT *types.Named
+	for i := 0; i < st.NumFields(); i++ {
+		f := st.Field(i)
+		switch t := f.Type().Underlying().(type) {
+		case *types.Basic:
+			if t.Kind() == types.Bool {
+				if c14N.committed != "" {
+					return "Merge has several bool fields: cannot tell the window flag"
+				}
+				c14N.committed = f.Name()
+			}
+		case *types.Slice:
+			slices = append(slices, f.Name())
+		case *types.Chan:
+			chans = append(chans, f.Name())
+			msgT, _ = t.Elem().(*types.Named)
+		case *types.Struct:
+			if isMutex(f.Type()) {
+				c14N.lock = f.Name()
+			}
+		}
+	}
+	if c14N.lock == "" || c14N.committed == "" || len(slices) != 2 || len(chans) != 2 || msgT == nil {
+		return "Merge: expected one mutex, one bool, two slices and two status channels"
+	}
+	// which of each pair is the running batch: the one the other is promoted into (dst = load of src)
+	promoted := func(pair []string) (dst, src string) {
+		for _, f := range c.P.FuncsOfPkg(c14PkgSync) {
+			for _, d := range pair {
+				for _, s := range c14FieldStores(f, c14TMerge, d) {
+					for _, o := range pair {
+						if o != d && c14IsLoadOfField(s.Val, c14TMerge, o) {
+							dst, src = d, o
+						}
+					}
+				}
+			}
+		}
+		return
+	}
+	c14N.items, c14N.pending = promoted(slices)
+	c14N.status, c14N.pendingStatus = promoted(chans)
+	if c14N.items == "" || c14N.status == "" {
+		return "Merge: cannot tell the running batch from the pending one (no promotion `x = pending` found)"
+	}
+	if ms, ok := msgT.Underlying().(*types.Struct); ok {
+		for i := 0; i < ms.NumFields(); i++ {
+			f := ms.Field(i)
+			if b, isB := f.Type().Underlying().(*types.Basic); isB && b.Kind() == types.Bool {
+				c14N.main = f.Name()
+			}
+			if isErrorType(f.Type()) {
+				c14N.err = f.Name()
+			}
+		}
+	}
+	if c14N.main == "" || c14N.err == "" {
+		return "the status message of Merge: expected a bool (main) and an error field"
+	}
+	// Pool
+	if pt := c.P.Named(c14PkgSync, "Pool"); pt != nil {
+		if ps, ok := pt.Underlying().(*types.Struct); ok {
+			for i := 0; i < ps.NumFields(); i++ {
+				f := ps.Field(i)
+				if isMutex(f.Type()) {
+					c14N.poolLock = f.Name()
+				}
+				if mp, isMap := f.Type().Underlying().(*types.Map); isMap {
+					c14N.poolItems = f.Name()
+					if ptr, isPtr := mp.Elem().Underlying().(*types.Pointer); isPtr {
+						if it, isNamed := ptr.Elem().(*types.Named); isNamed && it.Obj().Pkg() != nil {
+							c14N.poolItem = short(it.Obj().Pkg().Path() + "." + it.Obj().Name())
+							if is, isStruct := it.Underlying().(*types.Struct); isStruct {
+								for j := 0; j < is.NumFields(); j++ {
+									if b, isB := is.Field(j).Type().Underlying().(*types.Basic); isB && b.Info()&types.IsInteger != 0 {
+										c14N.refCount = is.Field(j).Name()
+									}
+								}
+							}
+						}
+					}
+				}
+			}
+		}
+	}
+	return ""
+}
+
+// c14RepoFields: the unexported Repository state by type: the capability word
+// (the only int32 / atomic.Int32 field) and the per-tag merge pool (the field
+// whose type is a syncutil.Pool).
+func c14RepoFields(c *Ctx) (state, pool string) {
+	rt := c.P.Named(c14PkgRemote, "Repository")
+	if rt == nil {
+		return "", ""
+	}
+	st, ok := rt.Underlying().(*types.Struct)
+	if !ok {
+		return "", ""
+	}
+	nState := 0
+	for i := 0; i < st.NumFields(); i++ {
+		f := st.Field(i)
+		if f.Exported() {
+			continue
+		}
+		if b, isB := f.Type().Underlying().(*types.Basic); isB && b.Kind() == types.Int32 {
+			state = f.Name()
+			nState++
+		}
+		if n, isN := f.Type().(*types.Named); isN && n.Obj().Pkg() != nil {
+			if n.Obj().Pkg().Path() == "sync/atomic" && n.Obj().Name() == "Int32" {
+				state = f.Name()
+				nState++
+			}
+			if n.Obj().Pkg().Path() == pkgPath(c14PkgSync) && n.Obj().Name() == "Pool" {
+				pool = f.Name()
+			}
+		}
+	}
+	if nState != 1 {
+		state = ""
+	}
+	return
+}
 
 func runC14(c *Ctx) {
 	m := c14FindMerge(c)
@@ -353,6 +505,19 @@ func c14ParamOf(v ssa.Value, fn *ssa.Function) *ssa.Parameter {
 	return nil
 }
 
+// c14IsStateField: fa addresses an int32 / atomic.Int32 field.
+func c14IsStateField(fa *ssa.FieldAddr) bool {
+	pt, ok := fa.Type().Underlying().(*types.Pointer)
+	if !ok {
+		return false
+	}
+	if b, isB := pt.Elem().Underlying().(*types.Basic); isB && b.Kind() == types.Int32 {
+		return true
+	}
+	n, isN := pt.Elem().(*types.Named)
+	return isN && n.Obj().Pkg() != nil && n.Obj().Pkg().Path() == "sync/atomic" && n.Obj().Name() == "Int32"
+}
+
 // c14ReturnsAtomicState: g returns atomic.LoadInt32(&x.referrersState).
 func c14ReturnsAtomicState(g *ssa.Function) bool {
 	n := 0
@@ -362,7 +527,7 @@ func c14ReturnsAtomicState(g *ssa.Function) bool {
 			return false
 		}
 		fa, ok := call.Call.Args[0].(*ssa.FieldAddr)
-		if !ok || fieldName(fa.X.Type(), fa.Field) != "~/registry/remote.Repository.referrersState" {
+		if !ok || !strings.HasPrefix(fieldName(fa.X.Type(), fa.Field), "~/registry/remote.Repository.") || !c14IsStateField(fa) {
 			return false
 		}
 		n++
@@ -375,8 +540,9 @@ func c14ReturnsAtomicState(g *ssa.Function) bool {
 func c14R4(c *Ctx) {
 	const R = "C14.R4.capability-never-flips"
 	c.Expect(R, 2)
-	if !c14HasField(c.P, c14PkgRemote, "Repository", "referrersState") {
-		c.LostAnchor(R, "field ~/registry/remote.Repository.referrersState")
+	stateField, _ := c14RepoFields(c)
+	if stateField == "" {
+		c.LostAnchor(R, "the capability word of ~/registry/remote.Repository (its only int32 / atomic.Int32 field)")
 		return
 	}
 	k, ok := c.P.Obj(c14PkgRemote, "referrersStateUnknown").(*types.Const)
@@ -396,7 +562,7 @@ func c14R4(c *Ctx) {
 	nCAS, nLoad := 0, 0
 	for _, f := range fns {
 		idx := map[string]int{}
-		for _, fa := range c14FieldAddrsAny(f, repoT, "referrersState") {
+		for _, fa := range c14FieldAddrsAny(f, repoT, stateField) {
 			for _, r := range *fa.Referrers() {
 				if _, dbg := r.(*ssa.DebugRef); dbg {
 					continue
